@@ -77,6 +77,21 @@ func (c *verifC28Conn) SetWriteDeadline(t time.Time) error { return nil }
 var verifC28Once sync.Once
 var verifC28Status *ServerStatus
 
+// server of the VerifC28ServeParts call in progress (the harness runs one at a time per process)
+var verifC28Cur *BfeServer
+
+// VerifC28Shutdown puts the server of the running VerifC28ServeParts call into graceful-shutdown state
+// (closes CloseNotifyCh, what BfeServer.ShutdownHandler does); to be called from the handler.
+func VerifC28Shutdown() {
+	if s := verifC28Cur; s != nil {
+		select {
+		case <-s.CloseNotifyCh:
+		default:
+			close(s.CloseNotifyCh)
+		}
+	}
+}
+
 // Return values a VerifC28Handler may use (the BeforeLocation verdicts of bfe_module).
 const (
 	VerifC28Close    = bfe_module.BfeHandlerClose    // close the connection directly, no response
@@ -105,6 +120,9 @@ func VerifC28ServeParts(parts []VerifC28Part, keepAlive bool, maxHeaderBytes, ma
 	srv.MaxHeaderBytes = maxHeaderBytes
 	srv.MaxHeaderUriBytes = maxUriBytes
 	srv.SetKeepAlivesEnabled(keepAlive)
+	srv.CloseNotifyCh = make(chan bool)
+	verifC28Cur = srv
+	defer func() { verifC28Cur = nil }()
 
 	fc := &verifC28Conn{in: bytes.NewReader(nil), parts: parts}
 	c, _ := newConn(fc, srv)
